@@ -101,6 +101,12 @@ let utf8_encode_ints cs =
 let scalars_of_hex h = List.map z_small (utf8_decode_ints (List.map int_of_z (bytes_of_hex h)))
 let hex_of_scalars cs = String.concat "" (List.map (Printf.sprintf "%02x") (utf8_encode_ints (List.map int_of_z cs)))
 
+let toks_sorted l = let rec srt = function a :: (b :: _ as r) -> (Z.ltb a.t_dl b.t_dl || (Z.eqb a.t_dl b.t_dl && not (Z.ltb b.t_dc a.t_dc))) && srt r | _ -> true in srt l
+(* tokens field (last '|' field) of an "ok file|...|tokens" observation are in generated order? *)
+let obs_sorted impl = (if String.length impl >= 3 && String.sub impl 0 3 = "ok " then
+    (match List.rev (String.split_on_char '|' (String.sub impl 3 (String.length impl - 3))) with
+     | t :: _ -> let t = (match String.index_opt t '#' with Some k -> String.sub t 0 k | None -> t) in (try toks_sorted (toks_of_string t) with _ -> false)
+     | [] -> false) else true)
 let verdict id corr prop extra =
   Printf.printf "%s\tcorr=%s\tprop=%s\t%s\n" id (if corr then "ok" else "diff") (match prop with Some true -> "ok" | Some false -> "fail" | None -> "n/a") extra
 
@@ -151,7 +157,11 @@ let () =
                     | Ok l -> "ok " ^ string_of_toks (List.map (fun t -> norm nn { t with t_range = false }) (dedup nn None (sort_tokens l)))
                     | _ -> "err") in
        let expect_nr = "ok " ^ string_of_toks (List.map (fun t -> norm nn { t with t_range = false }) (dedup nn None (List.map (fun t -> { t with t_range = false }) ts))) in
-       let indep_ok = (impl_map = "panic") || (indep = expect_nr) || List.exists (fun t -> t.t_range) ts in
+       (* a reader with exact integer arithmetic (no reduction mod 2^32) must read the same tokens *)
+       let strict = (match strict_decode_mappings nsrc nn (bytes_of_hex impl_map) with
+                    | Ok l -> "ok " ^ string_of_toks (List.map (fun t -> norm nn { t with t_range = false }) (dedup nn None (sort_tokens l)))
+                    | _ -> "err") in
+       let indep_ok = (impl_map = "panic") || ((indep = expect_nr) && (strict = expect_nr)) in
        let prop = Some (expect = got && idem_ok && indep_ok) in
        count corr prop; verdict id corr prop (Printf.sprintf "model_map=%s\tmodel_rm=%s\tmodel_idem=%s\tmodel_dec=%s%s" m_map m_rm m_idem m_dec (if not idem_ok then "\tnot-idempotent" else if not indep_ok then "\tindependent-reading-differs" else ""))
      | [id; "lookup"; toks; l; c; impl] ->
@@ -166,7 +176,9 @@ let () =
        let m = hex_of_bytes (make_relative_path (bytes_of_hex base) (bytes_of_hex target)) in
        let dir = (match List.rev (components (bytes_of_hex base)) with [] -> [] | _ :: r -> List.rev r) in
        let resolved = resolve_str dir (bytes_of_hex impl) in
-       let corr = (m = impl) and prop = Some (resolved = components (bytes_of_hex target)) in
+       (* C19: resolving the answer against the base's directory gives the target; the answer is "." only when the target is that directory *)
+       let dot_ok = (impl <> "2e") || (components (bytes_of_hex target) = dir) in
+       let corr = (m = impl) and prop = Some (impl <> "panic" && resolved = components (bytes_of_hex target) && dot_ok) in
        count corr prop; verdict id corr prop (Printf.sprintf "model=%s" m)
      | [id; "lines"; text; reqs; impl] ->
        (* reqs: comma separated indices, -1 = line_count; impl: comma separated answers (hex, '-' for none, or n for counts) *)
@@ -196,45 +208,132 @@ let () =
        let sp = "ok " ^ canon (string_of_toks (spec_adjust o a)) in
        let impl_c = (if String.length impl >= 3 && String.sub impl 0 3 = "ok " then "ok " ^ canon (String.sub impl 3 (String.length impl - 3)) else impl) in
        let m_c = (if String.length m >= 3 && String.sub m 0 3 = "ok " then "ok " ^ canon (String.sub m 3 (String.length m - 3)) else m) in
-       let corr = (m_c = impl_c) and prop = (if sp = impl_c then Some true else if known then None else Some false) in
-       count corr prop; verdict id corr prop (Printf.sprintf "%smodel=%s" (if known && sp <> impl_c then "known=c10_has_empty_stretch\t" else "") m)
+       (* "the result is ordered by generated position": checked on the crate's own order, before canonicalisation *)
+       let ordered = (if String.length impl >= 3 && String.sub impl 0 3 = "ok " then
+           let l = toks_of_string (String.sub impl 3 (String.length impl - 3)) in
+           let rec srt = function a :: (b :: _ as r) -> (Z.ltb a.t_dl b.t_dl || (Z.eqb a.t_dl b.t_dl && not (Z.ltb b.t_dc a.t_dc))) && srt r | _ -> true in srt l
+         else false) in
+       let corr = (m_c = impl_c) and prop = (if not ordered then Some false else if sp = impl_c then Some true else if known then None else Some false) in
+       count corr prop; verdict id corr prop (Printf.sprintf "%s%smodel=%s" (if not ordered then "not-ordered\t" else "") (if ordered && known && sp <> impl_c then "known=c10_has_empty_stretch\t" else "") m)
      | [id; "rewrite"; m; names; contents; prefixes; impl] ->
        let sm = map_of_string m in
        let o = { ro_names = (names = "1"); ro_contents = (contents = "1"); ro_prefixes = List.map bytes_of_hex (split_list prefixes) } in
        let mo = show_map_outcome (rewrite sm o) in
-       (* property (C09): same tokens at the same positions resolving to the same strings (no prefixes: exact) *)
-       let views mm = List.map (fun t -> (t.t_dl, t.t_dc, t.t_sl, t.t_sc, t.t_range, tok_source mm t, (if names = "1" then tok_name mm t else None))) mm.sm_tokens in
-       let prop = (match rewrite sm o with
-                   | Ok m' when prefixes = "" -> Some (views sm = List.map (fun t -> (t.t_dl, t.t_dc, t.t_sl, t.t_sc, t.t_range, tok_source m' t, tok_name m' t)) m'.sm_tokens && (mo = impl))
-                   | _ -> None) in
+       (* property (C09), read on the crate's own observation: same positions, original positions and flags; the source name
+          minus a stripped prefix (independent reading spec_strip; "~" = the common prefix of the absolute sources); the name kept
+          unless names are dropped; sources/names without duplicates (before stripping) and all referenced; contents attached to
+          the same names exactly when contents are kept; file preserved; tokens ordered *)
+       let ordered = obs_sorted impl in
+       let prop = (if impl = "panic" then Some false
+         else if String.length impl < 3 || String.sub impl 0 3 <> "ok " then Some false         (* rewrite of a well-formed map never fails *)
+         else (match String.split_on_char '|' (String.sub impl 3 (String.length impl - 3)) with
+           | [file'; srcs'; names'; contents'; _ign; toks'] ->
+             let srcs' = Array.of_list (split_list srcs') and names' = Array.of_list (split_list names') and contents' = Array.of_list (split_list contents') in
+             let u32max = z_of_string "4294967295" in
+             let get a i = if Z.eqb i u32max then "-" else (let k = int_of_z i in if k < Array.length a then a.(k) else "?") in
+             let eff = List.concat_map (fun p -> if p = [z_small 126] then (match find_common_prefix sm.sm_sources with Some c -> [c] | None -> []) else [p]) o.ro_prefixes in
+             let strip src = (match src with None -> "-" | Some b -> "=" ^ hex_of_bytes (spec_strip eff b)) in
+             let want = List.map (fun t -> (t.t_dl, t.t_dc, t.t_sl, t.t_sc, t.t_range, strip (tok_source sm t), (if names = "1" then opt_hex' (tok_name sm t) else "-"))) sm.sm_tokens in
+             let ts' = toks_of_string toks' in
+             let got = List.map (fun t -> (t.t_dl, t.t_dc, t.t_sl, t.t_sc, t.t_range, get srcs' t.t_src, get names' t.t_name)) ts' in
+             let used a f = let n = Array.length a in List.for_all (fun i -> List.exists (fun t -> int_of_z (f t) = i) ts') (List.init n (fun i -> i)) in
+             let rec nodup = function [] -> true | x :: r -> not (List.mem x r) && nodup r in
+             let no_strip = (o.ro_prefixes = []) in
+             let interned = used srcs' (fun t -> t.t_src) && used names' (fun t -> t.t_name) && nodup (Array.to_list names') && (not no_strip || nodup (Array.to_list srcs')) in
+             (* contents: kept -> the content of a rewritten source is a content the input attaches to a source of that (stripped) name; dropped -> none *)
+             let contents_ok = (let ok = ref true in
+               Array.iteri (fun i s' -> let c = (if i < Array.length contents' then contents'.(i) else "-") in
+                 if contents = "0" then (if c <> "-" then ok := false)
+                 else (let cands = List.filter_map (fun t -> if strip (tok_source sm t) = s' then Some (opt_hex' (get_source_contents sm t.t_src)) else None) sm.sm_tokens in
+                       let firsts = (match List.find_opt (fun x -> x <> "-") cands with Some x -> x | None -> "-") in
+                       if no_strip then (if c <> firsts then ok := false) else (if c <> "-" && not (List.mem c cands) then ok := false))) srcs'; !ok) in
+             Some (want = got && interned && contents_ok && file' = opt_hex' sm.sm_file && ordered)
+           | _ -> Some false)) in
        let corr = (mo = impl) in
-       count corr prop; verdict id corr prop (Printf.sprintf "model=%s" mo)
-     | [id; "setters"; m; ops; impl] ->
-       (* ops: r:<hex|->  s:<i>:<hex>  c:<i>:<hex|-> ; impl: observation after all ops (or panic) *)
-       let sm = ref (Ok (map_of_string m)) in
+       count corr prop; verdict id corr prop (Printf.sprintf "%smodel=%s" (if not ordered then "not-ordered\t" else "") mo)
+     | [id; "setters"; m; ops; written; after2; impl] ->
+       (* ops: r:<hex|->  s:<i>:<hex>  c:<i>:<hex|-> ; impl: observation after all ops (or panic);
+          written: "<sourceRoot>|<sources as written>"; after2: sources as they read after two save/load cycles *)
+       let sm0 = map_of_string m in
+       let sm = ref (Ok sm0) in
+       (* the simple specification state: raw names, root, contents *)
+       let raw = ref (Array.of_list sm0.sm_sources) and root = ref sm0.sm_root and oob = ref false in
        List.iter (fun op -> match !sm with
          | Ok mm -> (match String.split_on_char ':' op with
-             | ["r"; r] -> sm := Ok (set_source_root (opt_of r) mm)
-             | ["s"; i; v] -> sm := set_source (z_of_string i) (bytes_of_hex (unq v)) mm
+             | ["r"; r] -> sm := Ok (set_source_root (opt_of r) mm); root := opt_of r
+             | ["s"; i; v] -> sm := set_source (z_of_string i) (bytes_of_hex (unq v)) mm;
+                              let k = int_of_string i in if k < Array.length !raw then (!raw).(k) <- bytes_of_hex (unq v) else oob := true
              | ["c"; i; v] -> sm := set_source_contents (z_of_string i) (opt_of v) mm
              | _ -> failwith "bad op")
          | _ -> ()) (split_list (String.concat "," (String.split_on_char ';' ops)));
        let mo = show_map_outcome !sm in
        let corr = (mo = impl) in
-       count corr None; verdict id corr None (Printf.sprintf "model=%s" mo)
-     | [id; "ram"; hex; impl] ->
+       (* property (C13): each source reads as join(root, raw name); the writer emits raw names + root; save/load never prefixes twice *)
+       let prop = (if !oob then None (* set_source past the end: outside the property *)
+         else if String.length impl < 3 || String.sub impl 0 3 <> "ok " then Some false
+         else (match String.split_on_char '|' (String.sub impl 3 (String.length impl - 3)) with
+           | _ :: got :: _ ->
+             let want = String.concat "," (List.map (fun r -> "=" ^ hex_of_bytes (spec_join !root r)) (Array.to_list !raw)) in
+             let want_written = opt_hex' (match !root with Some [] -> None | x -> x) ^ "|" ^ String.concat "," (List.map (fun r -> "=" ^ hex_of_bytes r) (Array.to_list !raw)) in
+             let written_norm = (match String.index_opt written '|' with Some k when String.sub written 0 k = "=" -> "-" ^ String.sub written k (String.length written - k) | _ -> written) in
+             Some (got = want && written_norm = want_written && after2 = want)
+           | _ -> Some false)) in
+       count corr prop; verdict id corr prop (Printf.sprintf "model=%s" mo)
+     | [id; "ram"; hex; corrupted; abstr; impl] ->
        let bs = bytes_of_hex hex in
        let mo = (match parse bs with
-         | Ok b -> let ms = List.init 4 (fun i -> match get_module b (z_small i) with Ok None -> "none" | Ok (Some d) -> hex_of_bytes d | Err _ -> "err" | Panic _ -> "panic") in
-                   Printf.sprintf "ok %s %s %s %b" (string_of_z b.b_count) (match startup_code b with Ok s -> hex_of_bytes s | Err _ -> "err" | Panic _ -> "panic") (String.concat "," ms) (is_ram_bundle bs)
+         | Ok b -> let ms = List.init 6 (fun i -> match get_module b (z_small i) with Ok None -> "none" | Ok (Some d) -> "=" ^ hex_of_bytes d | Err _ -> "err" | Panic _ -> "panic") in
+                   (* model of the iterator: ids in order, empty slots skipped, first 8 items *)
+                   let cnt = int_of_z b.b_count in
+                   let rec iter k acc n = if n = 0 || k >= cnt then List.rev acc else
+                     (match get_module b (z_small k) with Ok None -> iter (k + 1) acc n | Ok (Some d) -> iter (k + 1) ((string_of_int k ^ "=" ^ hex_of_bytes d) :: acc) (n - 1) | _ -> iter (k + 1) ("err" :: acc) (n - 1)) in
+                   Printf.sprintf "ok %s %s %s %b %s" (string_of_z b.b_count) (match startup_code b with Ok s -> hex_of_bytes s | Err _ -> "err" | Panic _ -> "panic") (String.concat "," ms) (is_ram_bundle bs) (String.concat "," (iter 0 [] 8))
          | Err _ -> Printf.sprintf "err %b" (is_ram_bundle bs) | Panic _ -> "panic") in
        let corr = (mo = impl) in
-       count corr None; verdict id corr None (Printf.sprintf "model=%s" mo)
+       (* property (C20), read from the abstract bundle the bytes were laid out from (not from the model of the parser):
+          count, startup code, each module without its NUL, nothing for empty slots, an error past the table, iterator = present
+          modules in id order; for every other byte string: recognised iff 12 bytes led by the magic, and never a panic *)
+       let ints = List.map int_of_z bs in
+       let recognised = (match ints with 0xE5 :: 0xD1 :: 0x0B :: 0xFB :: rest -> List.length rest >= 8 | _ -> false) in
+       let impl_rec = (match List.rev (String.split_on_char ' ' impl) with
+           | _ :: r :: _ when String.length impl > 3 && String.sub impl 0 3 = "ok " -> r
+           | r :: _ -> r | [] -> "?") in
+       let rec_ok = (impl = "panic") || (impl_rec = string_of_bool recognised) in
+       let prop = (if impl = "panic" then Some false
+         else if corrupted = "1" then Some rec_ok
+         else (match String.split_on_char ':' abstr with
+           | [count; startup; mods] ->
+             let mods = split_list mods in let cnt = int_of_string count in
+             let ms = List.init 6 (fun i -> if i < cnt then List.nth mods i else "err") in
+             let it = List.filteri (fun i _ -> i < 8) (List.concat (List.mapi (fun i m -> if m = "none" then [] else [string_of_int i ^ m]) mods)) in
+             let want = Printf.sprintf "ok %s %s %s true %s" count startup (String.concat "," ms) (String.concat "," it) in
+             Some (want = impl)
+           | _ -> Some false)) in
+       count corr prop; verdict id corr prop (Printf.sprintf "model=%s" (if corr then "same" else mo))
      | [id; "locate"; hex; impl] ->
        (* the text as scalar values: `str::trim` removes Unicode white space, not bytes *)
        let mo = (match locate (scalars_of_hex hex) with None -> "none" | Some (Ref u) -> "ref " ^ hex_of_scalars u | Some (LegacyRef u) -> "legacy " ^ hex_of_scalars u) in
        let corr = (mo = impl) in
-       count corr None; verdict id corr None (Printf.sprintf "model=%s" mo)
+       (* property (C18), an independent reading on code points: lines end at LF (a CR before it belongs to the ending); the first line
+          that begins with either 21-character prefix wins; its URL is the rest of the line without surrounding Unicode white space *)
+       let is_ws c = c = 32 || (c >= 9 && c <= 13) || c = 0x85 || c = 0xa0 || c = 0x1680 || (c >= 0x2000 && c <= 0x200a) || c = 0x2028 || c = 0x2029 || c = 0x202f || c = 0x205f || c = 0x3000 in
+       let cps = utf8_decode_ints (List.map int_of_z (bytes_of_hex hex)) in
+       let rec lines cur acc = function
+         | [] -> List.rev (if cur = [] then acc else List.rev cur :: acc)
+         | 10 :: r -> let l = (match cur with 13 :: c -> c | c -> c) in lines [] (List.rev l :: acc) r
+         | c :: r -> lines (c :: cur) acc r in
+       let ls = lines [] [] cps in
+       let codes str = List.init (String.length str) (fun i -> Char.code str.[i]) in
+       let rec has_prefix p l = (match p, l with [], _ -> true | a :: p', b :: l' -> a = b && has_prefix p' l' | _ -> false) in
+       let rec drop n l = if n = 0 then l else (match l with [] -> [] | _ :: r -> drop (n - 1) r) in
+       let rec ltrim = function c :: r when is_ws c -> ltrim r | l -> l in
+       let trim l = List.rev (ltrim (List.rev (ltrim l))) in
+       let enc l = String.concat "" (List.map (Printf.sprintf "%02x") (utf8_encode_ints l)) in
+       let want = (match List.find_opt (fun l -> has_prefix (codes "//# sourceMappingURL=") l || has_prefix (codes "//@ sourceMappingURL=") l) ls with
+                   | None -> "none"
+                   | Some l -> (if has_prefix (codes "//@") l then "legacy " else "ref ") ^ enc (trim (drop 21 l))) in
+       let prop = Some (want = impl) in
+       count corr prop; verdict id corr prop (Printf.sprintf "model=%s\tspec=%s" mo want)
      | [id; "hdr"; hex; chunks; impl_slice; impl_reader] ->
        (* public API only: the two paths must agree with each other; the model predicts the stripped stream *)
        let bs = bytes_of_hex hex in
@@ -264,8 +363,36 @@ let () =
        let corr = (m_flat = impl_flat) && (m_look = impl_lookups) in
        (* property (C08): whenever the index finds a token the flattened map finds the same original location *)
        let no_panic = impl_flat <> "panic" && List.for_all (fun pair -> match String.split_on_char '~' pair with [a; b] -> a <> "panic" && b <> "panic" | _ -> false) (split_list impl_lookups) in
-       let prop = Some (no_panic && List.for_all (fun pair -> match String.split_on_char '~' pair with [a; b] -> a = "none" || b = "noflat" || a = b | _ -> false) (split_list impl_lookups)) in
-       count corr prop; verdict id corr prop (Printf.sprintf "model_flat=%s\tmodel_look=%s" m_flat m_look)
+       (* property (C08), first sentence, read independently of the model of flatten: the flattened map holds exactly the sections'
+          tokens moved by the offsets (column only on the section's first line) with the same strings and flag; the content of a
+          flattened source is the first content seen, in token order, for that name; a source is ignored iff some token's source is *)
+       let u32max = z_of_string "4294967295" in
+       let sec_views = List.concat_map (fun (((ol, oc), _), dm) -> match dm with
+           | Some (DRegular m) -> List.map (fun t ->
+               ((string_of_z (Z.add t.t_dl ol), string_of_z (if Z.eqb t.t_dl Z0 then Z.add t.t_dc oc else t.t_dc)),
+                (opt_hex' (tok_source m t), string_of_z t.t_sl, string_of_z t.t_sc, opt_hex' (tok_name m t), t.t_range),
+                (if Z.eqb t.t_src u32max then None else get_source_contents m t.t_src), List.exists (Z.eqb t.t_src) m.sm_ignore,
+                Z.ltb u32max (Z.add t.t_dl ol) || (Z.eqb t.t_dl Z0 && Z.ltb u32max (Z.add t.t_dc oc)))) m.sm_tokens
+           | _ -> []) sections in
+       let overflow = List.exists (fun (_, _, _, _, o) -> o) sec_views in
+       let flat_ok = (if impl_flat = "panic" then false
+         else if overflow then (String.length impl_flat >= 3 && String.sub impl_flat 0 3 = "err")      (* a token would leave the u32 grid: must be refused *)
+         else if String.length impl_flat < 3 || String.sub impl_flat 0 3 <> "ok " then false
+         else (match String.split_on_char '|' (String.sub impl_flat 3 (String.length impl_flat - 3)) with
+           | [_file; srcs; names; contents; ignore; toks] ->
+             let srcs = Array.of_list (split_list srcs) and names = Array.of_list (split_list names) and contents = Array.of_list (split_list contents) in
+             let get a i = if Z.eqb i u32max then "-" else (let k = int_of_z i in if k < Array.length a then a.(k) else "?") in
+             let got = List.sort compare (List.map (fun t -> ((string_of_z t.t_dl, string_of_z t.t_dc), (get srcs t.t_src, string_of_z t.t_sl, string_of_z t.t_sc, get names t.t_name, t.t_range))) (toks_of_string toks)) in
+             let want = List.sort compare (List.map (fun (p, v, _, _, _) -> (p, v)) sec_views) in
+             let first_content s = (match List.find_opt (fun (_, (src, _, _, _, _), c, _, _) -> src = s && c <> None) sec_views with Some (_, _, c, _, _) -> opt_hex' c | None -> "-") in
+             let contents_ok = (let ok = ref true in Array.iteri (fun i s -> let c = (if i < Array.length contents then contents.(i) else "-") in if c <> first_content s then ok := false) srcs; !ok) in
+             let ignored_want = List.sort_uniq compare (List.filter_map (fun (_, (src, _, _, _, _), _, ig, _) -> if ig && src <> "-" then Some src else None) sec_views) in
+             let ignored_got = List.sort_uniq compare (List.map (fun i -> get srcs (z_of_string i)) (split_list ignore)) in
+             got = want && contents_ok && ignored_want = ignored_got
+           | _ -> false)) in
+       let ordered = obs_sorted impl_flat in
+       let prop = Some (ordered && no_panic && flat_ok && List.for_all (fun pair -> match String.split_on_char '~' pair with [a; b] -> a = "none" || b = "noflat" || a = b | _ -> false) (split_list impl_lookups)) in
+       count corr prop; verdict id corr prop (Printf.sprintf "%s%smodel_flat=%s\tmodel_look=%s" (if not ordered then "not-ordered\t" else "") (if not flat_ok then "flatten-differs-from-spec\t" else "") m_flat m_look)
      | [id; "decode"; file; sources; root; contents; names; mappings; rmappings; ignore; d1; d2; fault; impl_idem; impl] ->
        (* a regular-map document given field by field; the JSON layer itself is serde_json's *)
        let lst s f = if s = "-" then None else Some (List.map f (split_list (String.sub s 1 (String.length s - 1)))) in
@@ -298,10 +425,17 @@ let () =
        let spec_ok = (match spec_decode_mappings nsrc nn (match opt_of mappings with Some b -> b | None -> []) with Ok _ -> true | _ -> false) in
        let rmi_ok = (rmappings <> "=21") || (match opt_of mappings with Some b -> List.for_all (fun l -> l = []) (split_on (z_small 59) b) | None -> true) in
        let idem_ok = (impl_idem = "-" || impl_idem = "1") in
-       let prop = if impl = "panic" || not idem_ok then Some false else if rmi_ok then Some (is_ok = spec_ok) else None in
+       (* C02: tokens come out ordered; a non-empty sourceRoot is joined to every source that is not absolute (independent reading spec_join) *)
+       let ordered = obs_sorted impl in
+       let join_ok = (if is_ok && impl <> "ok other-kind" then
+           (match String.split_on_char '|' (String.sub impl 3 (String.length impl - 3)), lst sources ostr with
+            | _ :: got :: _, Some raws -> String.concat "," (List.map (fun o -> "=" ^ hex_of_bytes (spec_join (opt_of root) (match o with Some b -> b | None -> []))) raws) = got
+            | _ :: got :: _, None -> got = ""
+            | _ -> false) else true) in
+       let prop = if impl = "panic" || not idem_ok || not ordered || not join_ok then Some false else if rmi_ok then Some (is_ok = spec_ok) else None in
        let _ = fault in
        let corr = (m = impl) && (!m_idem = (if String.length impl_idem > 1 then String.sub impl_idem 0 1 else impl_idem)) in
-       count corr prop; verdict id corr prop (Printf.sprintf "model=%s%s" (if corr then "same" else m ^ " idem=" ^ !m_idem) (if not idem_ok then "\tnot-idempotent" else ""))
+       count corr prop; verdict id corr prop (Printf.sprintf "model=%s%s" (if corr then "same" else m ^ " idem=" ^ !m_idem) ((if not idem_ok then "\tnot-idempotent" else "") ^ (if not ordered then "\tnot-ordered" else "") ^ (if not join_ok then "\tsource-root-join-differs" else "")))
      | [id; "hermes"; mp; fb; offsets; impl] ->
        let m = map_of_string mp in
        let parse_fb s = (match s with
@@ -322,7 +456,7 @@ let () =
        let after = (match h_rewrite h { ro_names = true; ro_contents = true; ro_prefixes = [] } with
                     | Ok h2 -> List.map (fun t -> opt_hex' (get_scope_for_token h2 t Z0)) h2.h_sm.sm_tokens
                     | Err _ -> ["err"] | Panic _ -> ["panic"]) in
-       let mo = "ok " ^ String.concat "," per_tok ^ "~" ^ String.concat "," per_off ^ "~" ^ String.concat "," after in
+       let mo = "ok " ^ String.concat "," per_tok ^ "~" ^ String.concat "," per_off ^ "~" ^ String.concat "," after ^ "~" ^ String.concat "," per_tok in
        (* property (C14): for sources whose function map is well formed (strictly increasing, kind "s")
           the scope of every token is what the independent reading of the abstract entries says *)
        let impl_tok = (match String.index_opt impl '~' with Some k when String.length impl > 3 -> split_list (String.sub impl 3 (k - 3)) | _ -> []) in
@@ -337,10 +471,11 @@ let () =
             | Some (_, Some (_, _, "g")) -> got = "-"
             | Some _ -> true)) toks (if List.length impl_tok = List.length toks then impl_tok else List.map (fun _ -> "panic") toks)) in
        let prop = (match prop, String.split_on_char '~' impl with
-         | Some true, [before; _; aft] when List.length fbs = List.length m.sm_sources ->
-           (* C09 (Hermes): one function map per source -> the scopes are unchanged by rewrite *)
-           Some (String.sub before 3 (String.length before - 3) = aft || List.length toks = 0)
-         | Some true, [_; _; aft] -> Some (not (List.mem "panic" (split_list aft)))
+         | Some true, [before; _; aft; reser] when List.length fbs = List.length m.sm_sources ->
+           (* C09 (Hermes): one function map per source -> the scopes are unchanged by rewrite; C14: and by write + read *)
+           Some ((String.sub before 3 (String.length before - 3) = aft || List.length toks = 0) && String.sub before 3 (String.length before - 3) = reser)
+         | Some true, [before; _; aft; reser] -> Some (not (List.mem "panic" (split_list aft)) && String.sub before 3 (String.length before - 3) = reser)
+         | Some true, _ -> Some false
          | p, _ -> p) in
        let corr = (mo = impl) in
        count corr prop; verdict id corr prop (Printf.sprintf "model=%s" (if corr then "same" else mo))
@@ -356,9 +491,10 @@ let () =
        (* property (C15): the characters covering [col, col+span); the known-finding class is classified, not excused *)
        let prop = if sp = impl then Some true else if known then None else Some false in
        count corr prop; verdict id corr prop (Printf.sprintf "model=%s\tspec=%s%s" mo sp (if known && sp <> impl then "\tknown=c15_start_inside_pair" else ""))
-     | [id; "dataurl"; preamble; via_url; direct] ->
-       (* C18: what comes back through the data URL is what the serialised bytes decode to *)
-       let prop = Some (via_url = direct && String.length direct >= 2 && String.sub direct 0 2 = "ok") in
+     | [id; "dataurl"; preamble; via_url; direct; embedded; via_view] ->
+       (* C18: what comes back through the data URL is what the serialised bytes decode to, also when the URL sits in a
+          sourceMappingURL comment and is discovered from there *)
+       let prop = Some (via_url = direct && embedded = direct && via_view = direct && String.length direct >= 2 && String.sub direct 0 2 = "ok") in
        count true prop; verdict id true prop ("preamble=" ^ preamble)
      | [id; "roundtrip"; kind; before; after; idem; detected; shape; mp; dbg; impl_obs] ->
        (* C01 / C03 / C18: a whole map (regular, index, Hermes) written and read back.
